@@ -74,7 +74,7 @@ func cursorSetup(dir string, init Action) []string {
 		fmt.Fprintf(&b, "%d,%d\n", aInt(m, "id"), aInt(m, "v"))
 	}
 	writeFile(filepath.Join(dir, "t.csv"), b.String())
-	return []string{"VAR @a, @b, @p, @spare;"}
+	return []string{"VAR @a, @b, @p, @spare, @ia, @ib;", "PREPARE pinto FROM 'SELECT id, v INTO @ia, @ib FROM t';"}
 }
 
 func cursorQuery(q string) string {
@@ -96,7 +96,11 @@ func cursorExec(p *sut.Proc, a Action) Out {
 	c := aStr(a, "c")
 	switch actName(a) {
 	case "declare":
-		o, _ := stmtOut(p, "DECLARE "+c+" CURSOR FOR "+cursorQuery(aStr(a, "q"))+";")
+		q := cursorQuery(aStr(a, "q"))
+		if aStr(a, "q") == "into" {
+			q = "pinto"
+		}
+		o, _ := stmtOut(p, "DECLARE "+c+" CURSOR FOR "+q+";")
 		return o
 	case "dispose":
 		o, _ := stmtOut(p, "DISPOSE CURSOR "+c+";")
@@ -255,7 +259,7 @@ func cursorRandom(r *core.Run, k int) (Action, []Action) {
 		c := cs[rng.Intn(3)]
 		switch x := rng.Intn(100); {
 		case x < 8:
-			acts = append(acts, cursorA("declare", c, []string{"all", "big"}[rng.Intn(2)], "", 0, 0, 0))
+			acts = append(acts, cursorA("declare", c, []string{"all", "big", "all", "big", "into"}[rng.Intn(5)], "", 0, 0, 0))
 		case x < 20:
 			acts = append(acts, cursorA("open", c, "", "", 0, 0, 0))
 		case x < 25:
